@@ -700,7 +700,14 @@ void SoPlexBase<R>::_storeSolutionReal(bool verify)
    else if(_realLP != &_solver)
    {
       assert(_solver.isScaled());
+
+      typename SPxBasisBase<R>::SPxStatus scaledBasisStatus = _solver.getBasisStatus();
+
       _loadRealLP(false);
+
+      // loading the LP leaves the basis descriptor of the solver uninitialized: load the basis of the scaled problem
+      _solver.setBasisStatus(scaledBasisStatus);
+      _solver.setBasis(_basisStatusRows.get_const_ptr(), _basisStatusCols.get_const_ptr());
    }
 
    // unscale stored solution (removes persistent scaling)
